@@ -1,8 +1,298 @@
-//! C09 — stub, to be written.
+//! C09: model counts and support sets are exact.
+//!
+//! Case kinds (inputs => observed):
+//!   C09.cnt <bdd>      => exact clause f64bits support size_per_variable size npaths
+//!   C09.law <n> <a> <b> => |a| |b| |a or b| |a and b| |not a|        (or/and/not by the real library)
+//!   C09.bad <bdd>      => exact clause        (malformed stream: `panic` is an outcome)
 #[path = "../common.rs"]
 mod common;
 use common::*;
+use biodivine_lib_bdd::*;
 
-pub fn run(key: &str, _a: &[String], _out: &mut Out) { panic!("unknown key {}", key) }
-pub fn gen(_tier: Tier, _rng: &mut Rng64, _out: &mut Out) {}
+fn s(x: &str) -> String { x.to_string() }
+
+fn fmt_support(b: &Bdd) -> String {
+    let mut v: Vec<usize> = b.support_set().into_iter().map(|x| x.to_index()).collect();
+    v.sort();
+    fmt_usizes(&v)
+}
+fn fmt_spv(b: &Bdd) -> String {
+    let mut v: Vec<(usize, usize)> = b.size_per_variable().into_iter().map(|(x, c)| (x.to_index(), c)).collect();
+    v.sort();
+    if v.is_empty() { s("~") } else { v.iter().map(|(x, c)| format!("{}:{}", x, c)).collect::<Vec<_>>().join(",") }
+}
+fn or_panic<T: ToString>(x: Option<T>) -> String { match x { Some(x) => x.to_string(), None => s("panic") } }
+
+/// Executes one case from its textual inputs and writes the observation.
+pub fn run(key: &str, a: &[String], out: &mut Out) {
+    match key {
+        "C09.cnt" => {
+            let b = Bdd::from_string(&a[0]);
+            let exact = catch(|| b.exact_cardinality());
+            let clause = catch(|| b.exact_clause_cardinality());
+            let fl = catch(|| b.cardinality());
+            let sup = catch(|| fmt_support(&b));
+            let spv = catch(|| fmt_spv(&b));
+            // the number of paths actually yielded by the iterator, when that is affordable
+            let small = match &clause { Some(c) => c.bits() <= 17, None => false };
+            let npaths = if small { or_panic(catch(|| b.sat_clauses().count())) } else { s("-") };
+            out.case(key, a, &[
+                or_panic(exact), or_panic(clause),
+                match fl { Some(f) => format!("{:016x}", f.to_bits()), None => s("panic") },
+                sup.unwrap_or(s("panic")), spv.unwrap_or(s("panic")),
+                b.size().to_string(), npaths,
+            ]);
+        }
+        "C09.law" => {
+            let (x, y) = (Bdd::from_string(&a[1]), Bdd::from_string(&a[2]));
+            let ca = catch(|| x.exact_cardinality());
+            let cb = catch(|| y.exact_cardinality());
+            let cor = catch(|| x.or(&y).exact_cardinality());
+            let cand = catch(|| x.and(&y).exact_cardinality());
+            let cnot = catch(|| x.not().exact_cardinality());
+            out.case(key, a, &[or_panic(ca), or_panic(cb), or_panic(cor), or_panic(cand), or_panic(cnot)]);
+        }
+        "C09.bad" => {
+            let b = Bdd::from_string(&a[0]);
+            let exact = catch(|| b.exact_cardinality());
+            let clause = catch(|| b.exact_clause_cardinality());
+            out.case(key, a, &[or_panic(exact), or_panic(clause)]);
+        }
+        _ => panic!("unknown key {}", key),
+    }
+}
+
+/// `m` distinct sorted positions below `n`, with several gap shapes
+fn gap_positions(rng: &mut Rng64, n: usize, m: usize) -> Vec<usize> {
+    let m = m.min(n);
+    let mut pos: Vec<usize> = Vec::new();
+    let shape = rng.below(5);
+    while pos.len() < m {
+        let p = match shape {
+            0 => rng.below(n as u64) as usize,                                  // uniform
+            1 => rng.below((m as u64 + 3).min(n as u64)) as usize,              // packed at the top
+            2 => n - 1 - rng.below((m as u64 + 3).min(n as u64)) as usize,      // packed at the bottom
+            3 => if rng.bool() { rng.below(4.min(n as u64)) as usize } else { n - 1 - rng.below(4.min(n as u64)) as usize }, // both ends: one huge gap
+            _ => { let step = (n / (m + 1)).max(1); ((pos.len() + 1) * step + rng.below(3) as usize).min(n - 1) } // evenly spread
+        };
+        if !pos.contains(&p) { pos.push(p); } else if shape != 0 { let q = rng.below(n as u64) as usize; if !pos.contains(&q) { pos.push(q); } }
+    }
+    pos.sort();
+    pos
+}
+
+/// canonical diagram of `tt` (a function of `pos.len()` variables) placed on the levels `pos` of `n` variables
+fn gap_triples(n: usize, pos: &[usize], tt: &[bool]) -> Vec<(usize, usize, usize)> {
+    let m = pos.len();
+    canon_triples(m, tt).into_iter().map(|(v, l, h)| (if v == m { n } else { pos[v] }, l, h)).collect()
+}
+
+fn random_gap(rng: &mut Rng64, n: usize, max_m: usize) -> Vec<(usize, usize, usize)> {
+    let m = (rng.below(max_m as u64 + 1) as usize).min(n);
+    let pos = gap_positions(rng, n, m);
+    let tt = random_tt(rng, m);
+    gap_triples(n, &pos, &tt)
+}
+
+/// the single valuation `bits` as a chain (what `Bdd::from(BddValuation)` builds)
+fn valuation_triples(bits: &[bool]) -> Vec<(usize, usize, usize)> {
+    let n = bits.len();
+    let mut nodes = vec![(n, 0, 0), (n, 1, 1)];
+    for i in (0..n).rev() {
+        let r = nodes.len() - 1;
+        nodes.push(if bits[i] { (i, 0, r) } else { (i, r, 0) });
+    }
+    nodes
+}
+
+/// a conjunction of literals on the listed levels
+fn cube_triples(n: usize, lits: &[(usize, bool)]) -> Vec<(usize, usize, usize)> {
+    let mut nodes = vec![(n, 0, 0), (n, 1, 1)];
+    for (v, b) in lits.iter().rev() {
+        let r = nodes.len() - 1;
+        nodes.push(if *b { (*v, 0, r) } else { (*v, r, 0) });
+    }
+    nodes
+}
+
+fn cnt(t: &[(usize, usize, usize)], out: &mut Out) { run("C09.cnt", &[fmt_triples(t)], out) }
+
+/// the same diagram with its inner decision nodes renumbered by a random permutation (the root stays
+/// last): valid, reduced, but NOT in post-order — a node may precede its children
+fn permute_inner(rng: &mut Rng64, t: &[(usize, usize, usize)]) -> Vec<(usize, usize, usize)> {
+    let len = t.len();
+    if len < 5 { return t.to_vec(); }
+    let root = len - 1;
+    let mut perm: Vec<usize> = (0..len).collect();
+    for i in (3..root).rev() { let j = 2 + rng.below((i - 1) as u64) as usize; perm.swap(i, j); }
+    let mut out = t.to_vec();
+    for i in 2..len { out[perm[i]] = (t[i].0, perm[t[i].1], perm[t[i].2]); }
+    out
+}
+
+/// `x_a | (x_{a+1} & … & x_{b-1})`-style diagrams over `n` variables: one very short and one very long
+/// path to the 1-terminal, so the exact count has set bits more than 53 binary places apart
+fn short_long_triples(rng: &mut Rng64, n: usize) -> Vec<(usize, usize, usize)> {
+    // the long cube on levels `first+1 .. n` (random polarities, some levels skipped), the short literal on `first`
+    let first = rng.below(3.min(n as u64 - 1)) as usize;
+    let mut nodes = vec![(n, 0, 0), (n, 1, 1)];
+    let mut levels: Vec<usize> = (first + 1..n).filter(|_| !rng.chance(1, 10)).collect();
+    if levels.is_empty() { levels.push(n - 1); }
+    for v in levels.iter().rev() {
+        let r = nodes.len() - 1;
+        nodes.push(if rng.bool() { (*v, 0, r) } else { (*v, r, 0) });
+    }
+    let r = nodes.len() - 1;
+    nodes.push(if rng.bool() { (first, r, 1) } else { (first, 1, r) });
+    nodes
+}
+
+pub fn gen(tier: Tier, rng: &mut Rng64, out: &mut Out) {
+    let thorough = tier == Tier::Thorough;
+    // --- U-exh: all functions over n <= 3, n = 4 all (thorough) / sampled (quick)
+    for n in 0..=3usize {
+        for t in 0..(1u64 << (1u64 << n)) { cnt(&canon_triples(n, &tt_from_index(n, t)), out); }
+    }
+    if thorough {
+        for t in 0..65536u64 { cnt(&canon_triples(4, &tt_from_index(4, t)), out); }
+    } else {
+        for _ in 0..4000 { cnt(&canon_triples(4, &tt_from_index(4, rng.below(65536))), out); }
+    }
+    // --- laws on the small exhaustive universes
+    for n in 0..=2usize {
+        let c = 1u64 << (1u64 << n);
+        for t1 in 0..c { for t2 in 0..c {
+            run("C09.law", &[n.to_string(), fmt_triples(&canon_triples(n, &tt_from_index(n, t1))), fmt_triples(&canon_triples(n, &tt_from_index(n, t2)))], out);
+        } }
+    }
+    // --- fixed structured large diagrams
+    for n in [1usize, 2, 64, 65, 1023, 1024, 1025, 1026, 2000, 2049, 5000] {
+        // single valuations (the fixed defect F6 lives at n >= 1025), literals, far-apart cubes
+        let bits: Vec<bool> = (0..n).map(|_| rng.bool()).collect();
+        cnt(&valuation_triples(&bits), out);
+        cnt(&valuation_triples(&vec![false; n]), out);
+        cnt(&valuation_triples(&vec![true; n]), out);
+        for v in [0, n / 2, n - 1] {
+            cnt(&cube_triples(n, &[(v, true)]), out);
+            cnt(&cube_triples(n, &[(v, false)]), out);
+        }
+        if n >= 2 {
+            cnt(&cube_triples(n, &[(0, true), (n - 1, false)]), out);
+            cnt(&cube_triples(n, &[(0, false), (n - 1, true)]), out);
+        }
+        // the first k variables fixed, the remaining n-k free: count 2^(n-k), representable iff n-k < 1024
+        for k in [1usize, 5, 76, 77, 200] {
+            if k < n {
+                let lits: Vec<(usize, bool)> = (0..k).map(|i| (i, rng.bool())).collect();
+                cnt(&cube_triples(n, &lits), out);
+                let lits: Vec<(usize, bool)> = (n - k..n).map(|i| (i, rng.bool())).collect();
+                cnt(&cube_triples(n, &lits), out);
+            }
+        }
+        cnt(&[(n, 0, 0)], out);
+        cnt(&[(n, 0, 0), (n, 1, 1)], out);
+    }
+    // --- variable counts around the f64 mantissa / u64 boundary, counts with bits > 53 places apart
+    //     (e.g. x0 | (x1 & … & x_{n-1}): 2^(n-1) + 1); also used as operands of the laws
+    for n in 50..=70usize {
+        for _ in 0..(if thorough { 40 } else { 6 }) {
+            let t = short_long_triples(rng, n);
+            cnt(&t, out);
+            cnt(&permute_inner(rng, &t), out);
+            let u = short_long_triples(rng, n);
+            run("C09.law", &[n.to_string(), fmt_triples(&t), fmt_triples(&u)], out);
+            let g = random_gap(rng, n, 5);
+            run("C09.law", &[n.to_string(), fmt_triples(&t), fmt_triples(&g)], out);
+        }
+        // the plain form: x0 | (x1 & … & x_{n-1})
+        let mut lits: Vec<(usize, usize, usize)> = vec![(n, 0, 0), (n, 1, 1)];
+        for v in (1..n).rev() { let r = lits.len() - 1; lits.push((v, 0, r)); }
+        let r = lits.len() - 1; lits.push((0, r, 1));
+        cnt(&lits, out);
+    }
+    // --- valid, reduced, but not in post-order (inner nodes renumbered at random): the counting code is a
+    //     stack DFS, not a forward pass, and must not care
+    for _ in 0..(if thorough { 30000 } else { 2500 }) {
+        let t = match rng.below(3) {
+            0 => canon_triples(4, &tt_from_index(4, rng.below(65536))),
+            1 => { let n = 5 + rng.below(4) as usize; let tt = random_tt(rng, n); canon_triples(n, &tt) }
+            _ => { let n = 10 + rng.below(3000) as usize; random_gap(rng, n, 7) }
+        };
+        cnt(&permute_inner(rng, &t), out);
+    }
+    // --- U-gap: few-node diagrams over 10 … 5 000 variables with arbitrary level gaps
+    let rounds = if thorough { 60000 } else { 3500 };
+    for i in 0..rounds {
+        let n = match i % 6 {
+            0 => 10 + rng.below(30) as usize,
+            1 => 40 + rng.below(200) as usize,
+            2 => 900 + rng.below(300) as usize,          // around the f64 exponent limit
+            3 => 1025 + rng.below(1100) as usize,
+            4 => 2049 + rng.below(2952) as usize,
+            _ => 5000,
+        };
+        let t = random_gap(rng, n, if i % 7 == 0 { 8 } else { 5 });
+        cnt(&t, out);
+    }
+    // --- valid but non-canonical diagrams (counts must still be exact; support need not be)
+    for _ in 0..(if thorough { 20000 } else { 1200 }) {
+        let n = 1 + rng.below(7) as usize;
+        let b = random_bdd(rng, n);
+        let nc = noncanon_variant(rng, &b);
+        run("C09.cnt", &[fmt_bdd(&nc)], out);
+    }
+    // --- random dense diagrams over 5..9 variables
+    for _ in 0..(if thorough { 20000 } else { 1200 }) {
+        let n = 5 + rng.below(5) as usize;
+        run("C09.cnt", &[fmt_bdd(&random_bdd(rng, n))], out);
+    }
+    // --- laws at n in {0, 1, 7, 64, 65, 1000, 4000} (and 3 for the exhaustive-ish small case)
+    let per_n = if thorough { 8000 } else { 450 };
+    for n in [0usize, 1, 3, 7, 64, 65, 1000, 4000] {
+        for _ in 0..per_n {
+            let (ta, tb) = if n <= 7 {
+                let (x, y) = (random_tt(rng, n), random_tt(rng, n));
+                (canon_triples(n, &x), canon_triples(n, &y))
+            } else {
+                // operands on overlapping level sets drawn from a common pool
+                let pool = gap_positions(rng, n, 9);
+                let pick = |rng: &mut Rng64| { let mut p: Vec<usize> = pool.iter().cloned().filter(|_| rng.chance(3, 5)).collect(); p.truncate(6); p };
+                let (pa, pb) = (pick(rng), pick(rng));
+                let (x, y) = (random_tt(rng, pa.len()), random_tt(rng, pb.len()));
+                (gap_triples(n, &pa, &x), gap_triples(n, &pb, &y))
+            };
+            run("C09.law", &[n.to_string(), fmt_triples(&ta), fmt_triples(&tb)], out);
+        }
+    }
+    // --- malformed stream (kept apart): a reachable link outside the array is an index panic; garbage
+    //     that the root does not reach is never looked at. Diagrams whose variables do not increase along
+    //     a link are NOT generated: the u16 subtraction wraps in this (release) build and panics in a
+    //     checked build, the model's outcome for them is `panic`.
+    for _ in 0..(if thorough { 4000 } else { 300 }) {
+        let n = 2 + rng.below(5) as usize;
+        let b = random_bdd(rng, n);
+        let mut nodes: Vec<(usize, usize, usize)> = b.clone().to_nodes().iter().map(|x| (x.var.to_index(), x.low_link.to_index(), x.high_link.to_index())).collect();
+        if nodes.len() < 3 { continue; }
+        let len = nodes.len();
+        match rng.below(3) {
+            0 => { // break a link of a random decision node (reachable: the diagram is canonical)
+                let i = 2 + rng.below((len - 2) as u64) as usize;
+                let far = len + rng.below(5) as usize;
+                if rng.bool() { nodes[i].1 = far } else { nodes[i].2 = far }
+            }
+            1 => { // unreachable garbage with wild links, inserted before the root
+                let r = nodes.pop().unwrap();
+                nodes.push((rng.below(n as u64) as usize, len + 7, 0));
+                nodes.push(r);
+            }
+            _ => { // unreachable garbage whose variable order is wrong
+                let r = nodes.pop().unwrap();
+                nodes.push((n - 1, 2, 2));
+                nodes.push(r);
+            }
+        }
+        run("C09.bad", &[fmt_triples(&nodes)], out);
+    }
+}
+
 fn main() { harness_main(gen, run) }
